@@ -9,7 +9,7 @@ TECHNIQUE = ("Coq proof over all schedules of an interleaving model (producers /
              "clauses the code violates; model tied to the code by running the real FileLogger with 1-8 producer threads and "
              "replaying the observed linearisation in the extracted model")
 LEVEL_TEXT = ("Theorems for all schedules, producer counts and programs (code after repairs c53d854, 4b85524, aa7ec53): c28_order, "
-              "c28_levels, c28_at_most_once, c28_return_exact/c28_return_ok, c28_all_written (when stop() has returned every line "
+              "c28_levels, c28_at_most_once, c28_numbering_plain / c28_numbering_direction (one number series without the direction flag whatever the vals, two with it), c28_return_exact/c28_return_ok, c28_all_written (when stop() has returned every line "
               "accepted before its request_stop has been written, exactly once), c28_all_written_done, c28_oracle_sound / "
               "c28_oracle_ok (the extracted oracle holds on the model); refuted: empty line taken for the stop marker; witnesses "
               "against earlier code: c28_lost_lines_orig_refuted, c28_return_orig_refuted, c28_stop_window_intermediate_refuted.")
@@ -29,6 +29,8 @@ ASSUMPTIONS = ["ff::uMPMC_Ptr_Queue behaves as an atomic FIFO (C30); try_push ne
                "only touched as modelled (set_levels/set_flags are not called concurrently)",
                "all producers have finished before stop() is called (the property speaks of lines submitted before the stop)"]
 RULE = ("1..8 producer threads x 0..200 submit calls with levels Debug..Fatal against level masks 0..31 (none, all, single, random), "
+        "three quarters of the cases with an explicit val argument per call drawn from {0, 1, other} (all equal, alternating, "
+        "per producer, random) on a logger with or without the direction flag (sequence numbering: one series / two series), "
         "texts carrying producer and call number; stop() (a) by the producer finishing last, (b) 0..2000 us after the producers "
         "were joined, (c) after the file was seen complete; a few programs contain an empty text (the stop marker) at an enabled or "
         "disabled level. The OS decides the interleaving of the producers: the observed linearisation is replayed in the "
@@ -87,20 +89,44 @@ def rand_prog(rng, n, mask, empties=0.0):
     return "".join(out) or "-"
 
 
-def mk(mode, mask, delay, progs, cls):
-    return Case("%s %d %d %s" % (mode, mask, delay, ",".join(progs)), cls)
+def rand_vals(rng, progs):
+    """the val argument of every call ('0' -> 0, '1' -> 1, '2' -> another non-zero value)"""
+    m = rng.randrange(6)
+    out = []
+    for p in progs:
+        n = 0 if p == "-" else len(p)
+        if m == 0:
+            v = "0" * n
+        elif m == 1:
+            v = "1" * n
+        elif m == 2:
+            v = "".join("01"[k % 2] for k in range(n))
+        elif m == 3:
+            v = rng.choice("012") * n          # one val per producer
+        else:
+            v = "".join(rng.choice("012") for _ in range(n))
+        out.append(v or "-")
+    return out
+
+
+def mk(mode, mask, delay, progs, cls, rng=None):
+    line = "%s %d %d %s" % (mode, mask, delay, ",".join(progs))
+    if rng is not None and rng.random() < 0.75:
+        # logger with / without the direction flag, calls with val in {0, 1, other}
+        line += " %d %s" % (rng.randrange(2), ",".join(rand_vals(rng, progs)))
+    return Case(line, cls)
 
 
 def gen_one(rng, cls, big=True):
     mask = rand_mask(rng)
     if cls == "single-c":
-        return mk("c", mask, 0, [rand_prog(rng, rand_len(rng, big), mask)], cls)
+        return mk("c", mask, 0, [rand_prog(rng, rand_len(rng, big), mask)], cls, rng)
     if cls == "multi-c":
         n = rng.randrange(2, 9)
-        return mk("c", mask, 0, [rand_prog(rng, rand_len(rng, big), mask) for _ in range(n)], cls)
+        return mk("c", mask, 0, [rand_prog(rng, rand_len(rng, big), mask) for _ in range(n)], cls, rng)
     if cls == "stop-a":
         n = rng.randrange(1, 9)
-        return mk("a", mask, 0, [rand_prog(rng, rand_len(rng, big), mask) for _ in range(n)], cls)
+        return mk("a", mask, 0, [rand_prog(rng, rand_len(rng, big), mask) for _ in range(n)], cls, rng)
     if cls == "stop-b":
         n = rng.randrange(1, 9)
         return mk("b", mask, rng.choice([0, 50, 150, 250, 400, 1000, 2000, rng.randrange(2001)]),
@@ -108,13 +134,13 @@ def gen_one(rng, cls, big=True):
     if cls == "levels":
         n = rng.randrange(1, 4)
         mask = rng.choice([0, 31, 1, 2, 4, 8, 16, 28, 3, 30])
-        return mk(rng.choice("cab"), mask, 100, ["".join(str(rng.randrange(5)) for _ in range(rng.randrange(5, 30))) for _ in range(n)], cls)
+        return mk(rng.choice("cab"), mask, 100, ["".join(str(rng.randrange(5)) for _ in range(rng.randrange(5, 30))) for _ in range(n)], cls, rng)
     if cls == "empty":
         n = rng.randrange(1, 4)
         progs = [rand_prog(rng, rng.randrange(2, 12), mask, 0.15) for _ in range(n)]
         if not any(ch in "abcde" for p in progs for ch in p):
             progs[0] = progs[0].replace("-", "") + "b1"
-        return mk(rng.choice("ab"), mask, 100, progs, cls)
+        return mk(rng.choice("ab"), mask, 100, progs, cls, rng)
     raise ValueError(cls)
 
 
@@ -124,18 +150,20 @@ CLASSES = ["single-c", "multi-c", "stop-a", "stop-b", "single-c", "multi-c", "st
 def gen_cases(rng, tier):
     thorough = tier == "thorough"
     cs = [Case("c 18 0 101,14", "fixed"), Case("c 31 0 -", "fixed"), Case("a 0 0 123,-", "fixed"),
+          Case("c 31 0 1111,222 1 0120,101", "fixed"), Case("c 31 0 1111,222 0 0120,101", "fixed"),
+          Case("c 2 0 1111 0 0101", "fixed"), Case("a 31 0 11 1 -", "fixed"),
           Case("c 2 0 1b1", "empty-c"), Case("c 31 0 0a,111", "empty-c"), Case("c 1 0 1b1,22", "fixed")]
     n = 2500 if thorough else 230
     for i in range(n):
         cs.append(gen_one(rng, CLASSES[i % len(CLASSES)], big=thorough or i % 4 == 0))
     # 8 threads x 200 lines once
-    cs.append(mk("c", 31, 0, [rand_prog(rng, 200, 31) for _ in range(8)], "multi-c"))
-    cs.append(mk("a", 31, 0, [rand_prog(rng, 200, 31) for _ in range(8)], "stop-a"))
+    cs.append(mk("c", 31, 0, [rand_prog(rng, 200, 31) for _ in range(8)], "multi-c", rng))
+    cs.append(mk("a", 31, 0, [rand_prog(rng, 200, 31) for _ in range(8)], "stop-a", rng))
     return cs
 
 
 def parse(case):
-    mode, mask, delay, progs = case.line.split()
+    mode, mask, delay, progs = case.line.split()[:4]
     return mode, int(mask), int(delay), [("" if p == "-" else p) for p in progs.split(",")]
 
 
